@@ -1,0 +1,306 @@
+//! Verification hooks (compiled only with `--cfg gamedig_verif`).
+//!
+//! * a scripted, thread-local transport that the socket implementations
+//!   consult in a prologue: when a script is installed on the current thread
+//!   every `new` / `send` / `receive` is answered by the script and recorded as
+//!   an event; with no script installed nothing changes;
+//! * public re-exports of crate-private readers and codecs so that an external
+//!   conformance harness can drive them directly.
+//!
+//! Nothing in here is reachable without the cfg flag.
+#![cfg(gamedig_verif)]
+
+use crate::protocols::types::TimeoutSettings;
+use crate::GDErrorKind::{PacketReceive, PacketSend, SocketBind, SocketConnect};
+use crate::GDResult;
+
+use std::cell::RefCell;
+use std::collections::{HashMap, VecDeque};
+use std::net::{self, SocketAddr};
+use std::os::fd::{FromRawFd, IntoRawFd, RawFd};
+use std::time::Duration;
+
+pub mod reexport {
+    pub use crate::buffer::{
+        Buffer,
+        BufferRead,
+        StringDecoder,
+        SwitchEndian,
+        Utf16Decoder,
+        Utf8Decoder,
+        Utf8LengthPrefixedDecoder,
+    };
+    pub use crate::protocols::unreal2::Unreal2StringDecoder;
+    pub use crate::utils::{error_by_expected_size, retry_on_timeout, u8_lower_upper};
+
+    #[cfg(feature = "games")]
+    pub mod minecraft {
+        use crate::buffer::Buffer;
+        use crate::GDResult;
+        use byteorder::ByteOrder;
+
+        pub fn get_varint<B: ByteOrder>(buffer: &mut Buffer<B>) -> GDResult<i32> {
+            crate::games::minecraft::get_varint(buffer)
+        }
+        pub fn as_varint(value: i32) -> Vec<u8> { crate::games::minecraft::as_varint(value) }
+        pub fn get_string<B: ByteOrder>(buffer: &mut Buffer<B>) -> GDResult<String> {
+            crate::games::minecraft::get_string(buffer)
+        }
+        pub fn as_string(value: &str) -> GDResult<Vec<u8>> { crate::games::minecraft::as_string(value) }
+    }
+}
+
+/// Transport kind of a scripted connection.
+#[derive(Debug, Clone, Copy, PartialEq, Eq)]
+pub enum Kind {
+    Udp,
+    Tcp,
+}
+
+/// What the scripted peer does when the client performs its n-th send on a
+/// connection.
+#[derive(Debug, Clone, Default)]
+pub struct Reaction {
+    /// The send itself fails (reported as `PacketSend`).
+    pub fail: bool,
+    /// UDP: datagrams enqueued in delivery order. TCP: byte chunks appended to
+    /// the stream.
+    pub batch: Vec<Vec<u8>>,
+    /// TCP only: the peer closes the stream after these bytes.
+    pub close: bool,
+}
+
+/// Behaviour of the peer on the i-th connection the client opens.
+#[derive(Debug, Clone, Default)]
+pub struct ConnScript {
+    /// TCP only: `false` refuses the connection (`SocketConnect`).
+    pub refuse: bool,
+    pub on_send: Vec<Reaction>,
+}
+
+#[derive(Debug, Clone, Default)]
+pub struct Script {
+    pub conns: Vec<ConnScript>,
+    /// Upper bound on socket operations of one call; exceeding it panics with
+    /// a message starting with `VERIF_HANG` (a call that never returns).
+    pub max_ops: usize,
+}
+
+#[derive(Debug, Clone, PartialEq, Eq)]
+pub enum RecvOut {
+    Data(Vec<u8>),
+    Timeout,
+}
+
+#[derive(Debug, Clone, PartialEq, Eq)]
+pub enum Event {
+    Open {
+        conn: usize,
+        kind: Kind,
+        addr: SocketAddr,
+        refused: bool,
+        connect: Option<Duration>,
+        read: Option<Duration>,
+        write: Option<Duration>,
+        retries: usize,
+    },
+    Send {
+        conn: usize,
+        data: Vec<u8>,
+        failed: bool,
+    },
+    Recv {
+        conn: usize,
+        size: Option<usize>,
+        out: RecvOut,
+    },
+}
+
+struct Conn {
+    kind: Kind,
+    script: ConnScript,
+    sends: usize,
+    queue: VecDeque<Vec<u8>>,
+    stream: Vec<u8>,
+    closed: bool,
+}
+
+struct State {
+    script: Script,
+    conns: Vec<Conn>,
+    by_fd: HashMap<RawFd, usize>,
+    events: Vec<Event>,
+    ops: usize,
+}
+
+thread_local! {
+    static STATE: RefCell<Option<State>> = const { RefCell::new(None) };
+}
+
+/// Install a script on the current thread (replacing any previous one).
+pub fn install(script: Script) {
+    STATE.with(|s| {
+        *s.borrow_mut() = Some(State {
+            script,
+            conns: Vec::new(),
+            by_fd: HashMap::new(),
+            events: Vec::new(),
+            ops: 0,
+        });
+    });
+}
+
+/// Remove the script of the current thread and return the recorded events.
+pub fn uninstall() -> Vec<Event> {
+    STATE.with(|s| s.borrow_mut().take().map(|st| st.events).unwrap_or_default())
+}
+
+pub fn is_installed() -> bool { STATE.with(|s| s.borrow().is_some()) }
+
+fn tick(st: &mut State) {
+    st.ops += 1;
+    if st.script.max_ops != 0 && st.ops > st.script.max_ops {
+        panic!("VERIF_HANG: more than {} socket operations in one call", st.script.max_ops);
+    }
+}
+
+fn open(kind: Kind, address: &SocketAddr, timeout_settings: &Option<TimeoutSettings>) -> Option<(usize, bool)> {
+    STATE.with(|s| {
+        let mut guard = s.borrow_mut();
+        let st = guard.as_mut()?;
+        tick(st);
+        let conn = st.conns.len();
+        let script = st.script.conns.get(conn).cloned().unwrap_or_default();
+        let refused = kind == Kind::Tcp && script.refuse;
+        let (read, write) = TimeoutSettings::get_read_and_write_or_defaults(timeout_settings);
+        st.events.push(Event::Open {
+            conn,
+            kind,
+            addr: *address,
+            refused,
+            connect: TimeoutSettings::get_connect_or_default(timeout_settings),
+            read,
+            write,
+            retries: TimeoutSettings::get_retries_or_default(timeout_settings),
+        });
+        st.conns.push(Conn {
+            kind,
+            script,
+            sends: 0,
+            queue: VecDeque::new(),
+            stream: Vec::new(),
+            closed: false,
+        });
+        Some((conn, refused))
+    })
+}
+
+fn register(fd: RawFd, conn: usize) {
+    STATE.with(|s| {
+        if let Some(st) = s.borrow_mut().as_mut() {
+            st.by_fd.insert(fd, conn);
+        }
+    });
+}
+
+/// Prologue of `TcpSocketImpl::new`. `None`: no script installed.
+pub fn tcp_open(address: &SocketAddr, timeout_settings: &Option<TimeoutSettings>) -> Option<GDResult<net::TcpStream>> {
+    let (conn, refused) = open(Kind::Tcp, address, timeout_settings)?;
+    if refused {
+        return Some(Err(SocketConnect.context("scripted: connection refused")));
+    }
+    // A placeholder OS stream so that the unmodified struct and `apply_timeout`
+    // are exercised; one end of a socket pair.
+    let pair = match std::os::unix::net::UnixStream::pair() {
+        Ok(p) => p,
+        Err(e) => return Some(Err(SocketConnect.context(e))),
+    };
+    let fd = pair.0.into_raw_fd();
+    register(fd, conn);
+    // SAFETY: `fd` is a freshly created, owned stream socket.
+    Some(Ok(unsafe { net::TcpStream::from_raw_fd(fd) }))
+}
+
+/// Prologue of `UdpSocketImpl::new`. `None`: no script installed.
+pub fn udp_open(address: &SocketAddr, timeout_settings: &Option<TimeoutSettings>) -> Option<GDResult<net::UdpSocket>> {
+    let (conn, _) = open(Kind::Udp, address, timeout_settings)?;
+    let socket = match net::UdpSocket::bind("127.0.0.1:0") {
+        Ok(s) => s,
+        Err(e) => return Some(Err(SocketBind.context(e))),
+    };
+    register(std::os::fd::AsRawFd::as_raw_fd(&socket), conn);
+    Some(Ok(socket))
+}
+
+/// Prologue of `send`. `None`: not a scripted socket.
+pub fn on_send(fd: RawFd, data: &[u8]) -> Option<GDResult<()>> {
+    STATE.with(|s| {
+        let mut guard = s.borrow_mut();
+        let st = guard.as_mut()?;
+        let conn = *st.by_fd.get(&fd)?;
+        tick(st);
+        let c = &mut st.conns[conn];
+        let reaction = c.script.on_send.get(c.sends).cloned().unwrap_or_default();
+        c.sends += 1;
+        st.events.push(Event::Send {
+            conn,
+            data: data.to_vec(),
+            failed: reaction.fail,
+        });
+        if reaction.fail {
+            return Some(Err(PacketSend.context("scripted: send failed")));
+        }
+        match c.kind {
+            Kind::Udp => c.queue.extend(reaction.batch),
+            Kind::Tcp => {
+                for chunk in reaction.batch {
+                    c.stream.extend(chunk);
+                }
+                c.closed |= reaction.close;
+            }
+        }
+        Some(Ok(()))
+    })
+}
+
+/// Prologue of `receive`. `None`: not a scripted socket.
+pub fn on_receive(fd: RawFd, size: Option<usize>, default_size: usize) -> Option<GDResult<Vec<u8>>> {
+    STATE.with(|s| {
+        let mut guard = s.borrow_mut();
+        let st = guard.as_mut()?;
+        let conn = *st.by_fd.get(&fd)?;
+        tick(st);
+        let c = &mut st.conns[conn];
+        let out = match c.kind {
+            Kind::Udp => {
+                match c.queue.pop_front() {
+                    None => RecvOut::Timeout,
+                    Some(mut d) => {
+                        // the kernel truncates a datagram to the receive buffer
+                        d.truncate(size.unwrap_or(default_size));
+                        RecvOut::Data(d)
+                    }
+                }
+            }
+            Kind::Tcp => {
+                // read_to_end: everything up to EOF, or a timeout error (bytes read so far
+                // are lost to the caller) when the peer keeps the stream open.
+                let data = std::mem::take(&mut c.stream);
+                if c.closed {
+                    RecvOut::Data(data)
+                } else {
+                    RecvOut::Timeout
+                }
+            }
+        };
+        st.events.push(Event::Recv {
+            conn,
+            size,
+            out: out.clone(),
+        });
+        Some(match out {
+            RecvOut::Data(d) => Ok(d),
+            RecvOut::Timeout => Err(PacketReceive.context("scripted: timed out")),
+        })
+    })
+}
